@@ -21,6 +21,7 @@ import (
 	"time"
 
 	"verifsim/check"
+	"verifsim/model"
 )
 
 const verifDir = "/verif"
@@ -38,6 +39,12 @@ func envSeed() uint64 {
 }
 
 func main() {
+	if v := os.Getenv("NUTSIM_ONLY_KINDS"); v != "" { // experiments only
+		model.OnlyKinds = map[string]bool{}
+		for _, k := range strings.Split(v, ",") {
+			model.OnlyKinds[k] = true
+		}
+	}
 	if len(os.Args) < 2 {
 		fmt.Fprintln(os.Stderr, "usage: nutsim check|worker|replay|selftest ...")
 		os.Exit(2)
